@@ -114,7 +114,12 @@ func genInput(t *rapid.T, o inputOpts) (gen.Seq, []string) {
 		}
 		return pick(t, name+"-enc", "const", "dict", "dict")
 	}
-	a := newCol(t, "a", drawKinds(t, "a", o), enc("a"))
+	aKinds := drawKinds(t, "a", o)
+	if long {
+		// one kind, so that the column really has more than 256 distinct values within one record type (plain vector)
+		aKinds = []string{pick(t, "a-long-kind", "int64", "int64", "string", "float64", "uint64", "int32")}
+	}
+	a := newCol(t, "a", aKinds, enc("a"))
 	b := newCol(t, "b", drawKinds(t, "b", o), enc("b"))
 	s := newCol(t, "s", pickOf(t, "s-kinds", [][]string{{"string"}, {"string"}, {"string", "nullstr"}, {"string", "missing"}, {"string", "nullstr", "missing"}}), enc("s"))
 	hasC := chance(t, 70, "has-c")
